@@ -60,8 +60,10 @@ def dtypeCanon (d : Dmr.Str) : Dmr.Str :=
   | c :: rest => if c = '>' || c = '<' || c = '|' || c = '=' then rest else d
   | [] => []
 
+/-- a parsed variable as the dataset shows it: the stored key `_quote(key)` (what `createVariable` is given) and
+    the stored short name `_quote(name)`; the other fields as parsed -/
 def recStr (r : VarRec) : String :=
-  "(" ++ strToHex r.key ++ " " ++ strToHex r.name ++ " " ++ optStr r.path ++ " " ++ String.ofList (dtypeCanon r.dtype)
+  "(" ++ strToHex (quoteName r.key) ++ " " ++ strToHex (quoteName r.name) ++ " " ++ optStr r.path ++ " " ++ String.ofList (dtypeCanon r.dtype)
     ++ " (" ++ " ".intercalate (r.dims.map strToHex) ++ ")"
     ++ " (" ++ " ".intercalate (r.shape.map toString) ++ ")"
     ++ " (" ++ " ".intercalate (r.maps.map optStr) ++ ")"
@@ -117,7 +119,7 @@ def handleDmr : List Sexp → Option String
         | .ok (_, little, ds) =>
           pure ("(ok " ++ (if little then "<" else ">")
             ++ String.join ((rs.zip (ls.zip ds)).map fun (r, l, d) =>
-                " (" ++ strToHex r.key ++ " " ++ decodedToStr l.itemsize d ++ ")") ++ ")")
+                " (" ++ strToHex (quoteName r.key) ++ " " ++ decodedToStr l.itemsize d ++ ")") ++ ")")
   | _ => none
 
 end Pydap.Driver
